@@ -60,7 +60,7 @@ func genObjSpec(t *rapid.T, id int) ObjSpec {
 		s.Len = rapid.IntRange(65, max(66, p1)).Draw(t, "len")
 	case 6:
 		s.Len = rapid.SampledFrom([]int{16383, 16384, 32768, 65536, 100 << 10}).Draw(t, "len")
-	case 7: // legacy compressed file smaller than the first read that decompresses to more than the callers' buffers
+	case 7, 8: // legacy compressed file smaller than the first read that decompresses to more than the callers' buffers
 		s.Compress, s.Repetitive = true, true
 		s.Len = rapid.IntRange(2*hdrBuf, 100<<10).Draw(t, "len")
 	default:
